@@ -209,7 +209,11 @@ claim("C20", "model_checking",
       "or reads one before it is assigned -- the step system (attribute reads/writes, flag reads scripted, "
       "publish/obtain) is recorded from executions of the real constructor through descriptors. Iteration over "
       "the live table (items()/values() consumed by Python code) is modelled with a size-change counter: a "
-      "schedule in which another thread inserts between two advances is an error (RuntimeError in CPython).",
+      "schedule in which another thread inserts between two advances is an error (RuntimeError in CPython). "
+      "Where the step system cannot be built because the constructor answers a repeated call without consulting "
+      "the table (shared state of its own), every one-preemption schedule of two threads through the real "
+      "constructor is swept instead; that fallback is an enumeration, not a solver verdict, and the check ends "
+      "with a harness error if it finds nothing.",
       "Line granularity (a subset of CPython's preemption points); setdefault of a builtin dict and `with "
       "lock` taken as atomic / mutually exclusive, setdefault of any other table type split into look-up and "
       "store; one key per constructor call; table operations without a model (del, pop, iteration) are a "
@@ -230,7 +234,10 @@ claim("C08", "model_checking",
       "real lru_cache wrapper with one symbolic value in two numeric types and must answer as its unmemoised body. "
       "Which caches a declaring call leaves filled is established by experiment for a new pair and for a pair "
       "declared before (a conditional clear becomes a re-declaration history, replayed); plain conversions must "
-      "answer the same before and after 56 conversions of compound units built from the same pairs (finite audit).",
+      "answer the same before and after 56 conversions of compound units built from the same pairs (finite audit). "
+      "When a history found under the wholesale reading of 'not cleared' does not replay, the search is repeated "
+      "under entry-by-entry invalidation (entries mentioning a declared unit and memoised successes go, memoised "
+      "failures between other units stay) over 4 units, 5 operations and routes of up to 3 declared edges.",
       "N <= 3 units and L <= 5 operations (quick), N <= 4, L <= 7 (thorough); queries on named units of one "
       "dimension (the planner's compound-unit logic is abstracted to path search); lru_cache contract.",
       "AST-extracted cache machine + z3 bounded model checking over symbolic histories", "DESIGN.md 4/C08",
